@@ -1,12 +1,16 @@
 #!/bin/bash
-# Offline setup: pre-build every check so that the first quick run is fast.
+# Offline setup: pre-build every registered check (with its overlays) so that the
+# first quick run is fast. Builds only from files on disk.
 export GOFLAGS=-mod=mod GOPROXY=off GOSUMDB=off GOTOOLCHAIN=local
 cd /verif || exit 1
 mkdir -p bin logs evidence replays .build
 [ -f go.sum ] || cp /repo/go.sum . 2>/dev/null
 rc=0
-for d in checks/*/; do
-  n=$(basename "$d")
-  go build -tags verif -o "bin/$n" "./checks/$n" || rc=1
+for n in $(python3 -c "
+import json
+for c in json.load(open('/verif/MANIFEST.json'))['checks']:
+    print(c['quick_cmd'].split()[1])
+"); do
+  VERIF_BUILD_ONLY=1 ./run.sh "$n" || { echo "setup: build of $n failed" >&2; rc=1; }
 done
 exit $rc
